@@ -90,6 +90,12 @@ CHECKS = {
   text="Node-set kernel: over a pool of 3 nodes whose order keys are symbolic, pairwise distinct, non-zero 64-bit values, z3 decides for every shape in the bounds that (union) the union of 1-3 document-ordered duplicate-free operand lists holds exactly the operands' nodes, each once, in strictly increasing key order - so A|B = B|A, A|A = A, count(A|B) <= count(A)+count(B); (paths) eval_filtered_loc_expr returns the step results of 1-2/3 context nodes (any order, duplicates) in non-decreasing key order with the same nodes; (filter) (E)[position()=t] selects the t-th node of the primary's list for any 64-bit t, i.e. positional filters on a parenthesised node-set count in the order `union` established.",
   note="Partial: which nodes an axis or node test selects is C05 (not applicable); that order keys follow document order is C14, that every node kind reports its key is C06.s.siblings. Sub-evaluators and XmlNode::order are stubs (listed in the evidence). Pool of 3 nodes, operand lists <= 2/3 nodes.",
   design="4/C07", engine="S-kernel"),
+ "C05": dict(
+  technique="source-level symbolic execution (S-kernel) of eval_axis_node_test / eval_node_test with the real dom node_type / node_name dispatch and stubs for the axis functions + SMT (z3); witnesses confirmed by probe queries on a real document",
+  category="model_checking",
+  text="Node-test kernel only: for every axis (13 named + the two abbreviated forms) x every kind of candidate node (element, attribute, text, CDATA, entity reference, PI, comment, document, namespace) x every node test (*, a QName whose name equality is ANY boolean, node(), text(), comment(), processing-instruction(), processing-instruction('t') with symbolic one-character target and PI name) z3 decides that the candidate is kept iff XPath 1.0 section 2.3 keeps it: type tests by node type, name tests only for nodes of the axis' principal node type (attribute / namespace / element).",
+  note="Partial - a kernel of C05, not C05: which nodes an axis delivers, predicates, name equality and namespaces (C10), functions and comparisons over node-sets and whole expressions on whole documents are outside (the scalar function library is C09, node-set order C07, steps that select nothing C06, the grammar C08). Axis functions and equal_qname are stubs.",
+  design="4/C05", engine="S-kernel"),
  "C12": dict(
   technique="source-level symbolic execution (S-kernel, with RefCell borrow tracking) of the DOM child mutators over a bounded piece of the item graph with symbolic ids + SMT (z3); one inductive step from an arbitrary valid state; counterexamples replayed through the DOM API",
   category="model_checking",
@@ -105,7 +111,6 @@ CHECKS = {
 }
 
 NA = {
- "C05": "needs xml_xpath::query to run on a live document: the evaluator walks the Rc<RefCell<..>> item graph behind a HashMap id table, which neither engine can encode for arbitrary documents (Kani could not build a two-element document in 25 min; the S-kernel holds one parent with its children, not trees of arbitrary depth). The scalar half of the evaluator is decided under C09, the expression grammar under C08, node-set order / de-duplication under C07, steps that select nothing and sibling navigation under C06.",
  "C10": "namespace scoping (in_scope_namespace, find_nameapce_uri, as_expanded_name) recurses over parent links of the item graph; only the grammar's recognition of xmlns / xmlns:p attribute names is within reach and is decided inside C01/C02.",
  "C17": "whole-program runs of the xe/xq binaries over process I/O, composing parser, evaluator, DOM mutation and printer: outside bounded symbolic execution of the code by either engine.",
 }
@@ -118,7 +123,7 @@ m = {
            "baseline_off_cmd": "cd /repo && cargo test --workspace --no-fail-fast --offline", "source_commits": ["1af260d"], "add_only": True},
  "engines": [
   {"name": "S-grammar", "path": "engine/sx/nomsem.py", "serves_properties": ["C01", "C02", "C03", "C06", "C08", "C18"], "kind_free_text": "symbolic executor for the nom grammars read from /repo via engine/srcdump (syn); z3 QF_BV"},
-  {"name": "S-kernel", "path": "engine/sx/kernel.py", "serves_properties": ["C01", "C04", "C06", "C07", "C09", "C11", "C12", "C13", "C14", "C15", "C16", "C19"], "kind_free_text": "path-enumerating symbolic interpreter for small Rust functions read from the syn dump (engine/sx/kstd.py = std models); z3"},
+  {"name": "S-kernel", "path": "engine/sx/kernel.py", "serves_properties": ["C01", "C04", "C05", "C06", "C07", "C09", "C11", "C12", "C13", "C14", "C15", "C16", "C19"], "kind_free_text": "path-enumerating symbolic interpreter for small Rust functions read from the syn dump (engine/sx/kstd.py = std models); z3"},
   {"name": "Kani", "path": "kani/", "serves_properties": ["C18"], "kind_free_text": "Kani 0.68 / CBMC 6.11 harness crate with path dependencies on /repo crates"},
   {"name": "replay", "path": "replay/", "serves_properties": ["C01", "C02"], "kind_free_text": "Rust driver with path dependencies on /repo crates: replays solver models and validates the translator"},
  ],
